@@ -176,7 +176,11 @@ func genReason(r *hx.Rand) []string {
 	return []string{"some", "longer", "reason"}
 }
 
-func genCmd(r *hx.Rand) string {
+// cli: the comment ends up in a real source file. go/ast's CommentGroup.Text drops comments of the form
+// //[a-z0-9]+:[a-z0-9] (directives) but keeps anything else as documentation, and checks such as ST1000/ST1020-22 then
+// react to the comment itself; that is the analyzers' business, not the directive machinery's, so only commands starting
+// with a lower-case letter are inserted into source files.
+func genCmd(r *hx.Rand, cli bool) string {
 	k := r.Intn(100)
 	switch {
 	case k < 62:
@@ -184,6 +188,9 @@ func genCmd(r *hx.Rand) string {
 	case k < 88:
 		return "file-ignore"
 	case k < 92:
+		if cli {
+			return "ignored"
+		}
 		return "Ignore"
 	case k < 96:
 		return "nolint"
@@ -286,7 +293,7 @@ func genInproc(r *hx.Rand, n int) []ICase {
 			if !r.Chance(4) {
 				args = append([]string{genNames(r, here, pool)}, genReason(r)...)
 			}
-			dirs = append(dirs, runner.SerializedDirective{Command: genCmd(r), Arguments: args, DirectivePosition: dp, NodePosition: np})
+			dirs = append(dirs, runner.SerializedDirective{Command: genCmd(r, false), Arguments: args, DirectivePosition: dp, NodePosition: np})
 		}
 		for _, d := range in {
 			c.Diags = append(c.Diags, toDiag(d))
@@ -339,7 +346,7 @@ func genTexts(r *hx.Rand, n int) []string {
 			switch r.Intn(6) {
 			case 0: // empty field
 			case 1:
-				b.WriteString(genCmd(r))
+				b.WriteString(genCmd(r, false))
 			case 2, 3:
 				b.WriteString(genNames(r, nil, pool))
 			default:
